@@ -16,7 +16,9 @@ EXPLANATION = (
   "compilePredicateFormula in app/common/PredicateFormula.ts; (R4) that every leaf placed in a "
   "tree is JSON-safe: identifiers and class names are strings by the ast grammar, while "
   "Constant.value (str|int|float|complex|bytes|bool|None|Ellipsis) and keyword.arg (None for "
-  "**kwargs) are emitted only under a guard that rejects the non-JSON cases. Not decided: that "
+  "**kwargs) are emitted only under a guard that rejects the non-JSON cases; (R5) in the `$x` -> `rec.x` "
+  "preprocessing run before the parse, the match that bounds each patch is anchored at the "
+  "mapped-back position of the DOLLAR-prefixed Name, not searched forward. Not decided: that "
   "the Node-side evaluation of each tag agrees with Python's semantics.")
 
 ALLOWED_UNUSED = {"ctx", "kind", "type_comment"}
